@@ -3,7 +3,7 @@
 use crate::corpus;
 use crate::modgen::*;
 use crate::util::*;
-use a2lfile::A2lError;
+use a2lfile::{A2lError, A2lFile, A2lObjectName, A2lObjectNameSetter, ItemList};
 use serde_json::{json, Value};
 use std::collections::BTreeSet;
 use vcore::explore::{fnv1a, guard, par_map};
@@ -12,6 +12,11 @@ use vcore::report::Run;
 
 /// the consistent base module; `t(position, default)` yields the target written at a position
 pub fn base_module(g: &Grammar, t: &dyn Fn(&str, &str) -> String) -> String {
+    base_module_ex(g, t, false)
+}
+
+/// `extras`: one more, unreferenced, element at the end of every list that the editing histories work on
+pub fn base_module_ex(g: &Grammar, t: &dyn Fn(&str, &str) -> String, extras: bool) -> String {
     let ad = |prefix: &str, attr: &str, refkid: Option<KSpec>| {
         let mut a = ks("AXIS_DESCR", &[("attribute", attr), ("input_quantity", &t(&format!("{prefix}.AXIS_DESCR.input_quantity"), "M")), ("conversion", &t(&format!("{prefix}.AXIS_DESCR.conversion"), "CM"))]);
         a.set.push(("lower_limit".into(), "1".into()));
@@ -22,7 +27,7 @@ pub fn base_module(g: &Grammar, t: &dyn Fn(&str, &str) -> String) -> String {
         a
     };
     let lim = |e: ESpec| e.set("lower_limit", "1").set("upper_limit", "2");
-    let elems = vec![
+    let mut elems = vec![
         e("MEMORY_SEGMENT", "SEG", "c1"),
         e("UNIT", "U", "c1"),
         e("COMPU_TAB", "TAB", "c1"),
@@ -82,6 +87,15 @@ pub fn base_module(g: &Grammar, t: &dyn Fn(&str, &str) -> String) -> String {
             .kid(kl("TRANSFORMER_IN_OBJECTS", &[&t("TRANSFORMER.TRANSFORMER_IN_OBJECTS", "C2")]))
             .kid(kl("TRANSFORMER_OUT_OBJECTS", &[&t("TRANSFORMER.TRANSFORMER_OUT_OBJECTS", "C2")])),
     ];
+    if extras {
+        for tag in ["MEMORY_SEGMENT", "UNIT", "COMPU_TAB", "COMPU_VTAB", "COMPU_VTAB_RANGE", "COMPU_METHOD", "RECORD_LAYOUT", "MEASUREMENT", "AXIS_PTS", "CHARACTERISTIC", "TYPEDEF_AXIS", "TYPEDEF_CHARACTERISTIC", "TYPEDEF_MEASUREMENT", "TYPEDEF_STRUCTURE", "INSTANCE", "FUNCTION", "GROUP", "TRANSFORMER"] {
+            let mut x = e(tag, &format!("ZZ_{tag}"), "c1");
+            if tag == "INSTANCE" {
+                x = x.set("type_ref", "TS");
+            }
+            elems.push(x);
+        }
+    }
     file_text(g, "m", &elems)
 }
 
@@ -243,6 +257,226 @@ fn odd_structures(g: &Grammar) -> Vec<(String, String)> {
     out
 }
 
+
+// ------------------------------------------------------------------------------------------------
+// models reached through the editing API: the report for a model that was edited through ItemList operations must be
+// the report for the same model loaded from its own text (a state reached by a history of operations is compared with
+// the same state reached from the initial state; no expected value is written by hand)
+
+#[derive(Clone, Debug, PartialEq)]
+pub enum EditOp {
+    Pop,
+    SwapRemove(usize),
+    SwapRemoveIdx(usize),
+    RetainNot(usize),
+    Truncate(usize),
+    Rename(usize),
+    Clear,
+    SortDesc,
+    PushBack,
+}
+
+impl EditOp {
+    fn to_json(&self) -> Value {
+        json!(format!("{self:?}"))
+    }
+    fn from_str(s: &str) -> Option<EditOp> {
+        let num = |p: &str| s.strip_prefix(p).and_then(|r| r.trim_end_matches(')').parse::<usize>().ok());
+        Some(match s {
+            "Pop" => EditOp::Pop,
+            "Clear" => EditOp::Clear,
+            "SortDesc" => EditOp::SortDesc,
+            "PushBack" => EditOp::PushBack,
+            _ => {
+                if let Some(n) = num("SwapRemove(") {
+                    EditOp::SwapRemove(n)
+                } else if let Some(n) = num("SwapRemoveIdx(") {
+                    EditOp::SwapRemoveIdx(n)
+                } else if let Some(n) = num("RetainNot(") {
+                    EditOp::RetainNot(n)
+                } else if let Some(n) = num("Truncate(") {
+                    EditOp::Truncate(n)
+                } else if let Some(n) = num("Rename(") {
+                    EditOp::Rename(n)
+                } else {
+                    return None;
+                }
+            }
+        })
+    }
+}
+
+fn apply_ops<T: A2lObjectName + A2lObjectNameSetter + Clone>(l: &mut ItemList<T>, ops: &[EditOp]) {
+    let mut stash: Option<T> = None;
+    for op in ops {
+        let name_at = |l: &ItemList<T>, i: usize| l.iter().nth(i).map(|x| x.get_name().to_string()).unwrap_or_else(|| "ABSENT_NAME".to_string());
+        match op {
+            EditOp::Pop => stash = l.pop().or(stash),
+            EditOp::SwapRemove(i) => {
+                let n = name_at(l, *i);
+                stash = l.swap_remove(&n).or(stash);
+            }
+            EditOp::SwapRemoveIdx(i) => stash = l.swap_remove_idx(*i).or(stash),
+            EditOp::RetainNot(i) => {
+                let n = name_at(l, *i);
+                l.retain(|x| x.get_name() != n);
+            }
+            EditOp::Truncate(k) => l.truncate(*k),
+            EditOp::Rename(i) => {
+                let n = format!("RENAMED_{}", name_at(l, *i));
+                l.rename_item(*i, &n);
+            }
+            EditOp::Clear => l.clear(),
+            EditOp::SortDesc => l.sort_by(|a, b| b.get_name().cmp(a.get_name())),
+            EditOp::PushBack => {
+                if let Some(x) = stash.take() {
+                    if !l.contains_key(x.get_name()) {
+                        l.push(x);
+                    }
+                }
+            }
+        }
+    }
+}
+
+pub const EDIT_LISTS: &[&str] = &[
+    "axis_pts", "characteristic", "compu_method", "compu_tab", "compu_vtab", "compu_vtab_range", "function", "group", "instance", "measurement", "record_layout", "transformer",
+    "typedef_axis", "typedef_characteristic", "typedef_measurement", "typedef_structure", "unit", "memory_segment",
+];
+
+fn list_len(f: &A2lFile, list: &str) -> usize {
+    let m = &f.project.module[0];
+    match list {
+        "axis_pts" => m.axis_pts.len(),
+        "characteristic" => m.characteristic.len(),
+        "compu_method" => m.compu_method.len(),
+        "compu_tab" => m.compu_tab.len(),
+        "compu_vtab" => m.compu_vtab.len(),
+        "compu_vtab_range" => m.compu_vtab_range.len(),
+        "function" => m.function.len(),
+        "group" => m.group.len(),
+        "instance" => m.instance.len(),
+        "measurement" => m.measurement.len(),
+        "record_layout" => m.record_layout.len(),
+        "transformer" => m.transformer.len(),
+        "typedef_axis" => m.typedef_axis.len(),
+        "typedef_characteristic" => m.typedef_characteristic.len(),
+        "typedef_measurement" => m.typedef_measurement.len(),
+        "typedef_structure" => m.typedef_structure.len(),
+        "unit" => m.unit.len(),
+        "memory_segment" => m.mod_par.as_ref().map(|p| p.memory_segment.len()).unwrap_or(0),
+        _ => 0,
+    }
+}
+
+fn edit_list(f: &mut A2lFile, list: &str, ops: &[EditOp]) {
+    let m = &mut f.project.module[0];
+    match list {
+        "axis_pts" => apply_ops(&mut m.axis_pts, ops),
+        "characteristic" => apply_ops(&mut m.characteristic, ops),
+        "compu_method" => apply_ops(&mut m.compu_method, ops),
+        "compu_tab" => apply_ops(&mut m.compu_tab, ops),
+        "compu_vtab" => apply_ops(&mut m.compu_vtab, ops),
+        "compu_vtab_range" => apply_ops(&mut m.compu_vtab_range, ops),
+        "function" => apply_ops(&mut m.function, ops),
+        "group" => apply_ops(&mut m.group, ops),
+        "instance" => apply_ops(&mut m.instance, ops),
+        "measurement" => apply_ops(&mut m.measurement, ops),
+        "record_layout" => apply_ops(&mut m.record_layout, ops),
+        "transformer" => apply_ops(&mut m.transformer, ops),
+        "typedef_axis" => apply_ops(&mut m.typedef_axis, ops),
+        "typedef_characteristic" => apply_ops(&mut m.typedef_characteristic, ops),
+        "typedef_measurement" => apply_ops(&mut m.typedef_measurement, ops),
+        "typedef_structure" => apply_ops(&mut m.typedef_structure, ops),
+        "unit" => apply_ops(&mut m.unit, ops),
+        "memory_segment" => {
+            if let Some(p) = m.mod_par.as_mut() {
+                apply_ops(&mut p.memory_segment, ops)
+            }
+        }
+        _ => {}
+    }
+}
+
+/// the entries of a report without line numbers, sorted
+fn report_key(rep: &[A2lError]) -> Vec<String> {
+    let mut v: Vec<String> = rep
+        .iter()
+        .map(|e| {
+            let s = e.to_string();
+            let mut out = String::new();
+            let mut rest = s.as_str();
+            while let Some(p) = rest.find("line ") {
+                out.push_str(&rest[..p + 5]);
+                rest = rest[p + 5..].trim_start_matches(|c: char| c.is_ascii_digit());
+                out.push('N');
+            }
+            out.push_str(rest);
+            out
+        })
+        .collect();
+    v.sort();
+    v
+}
+
+/// Ok((report of the edited model, number of entries)) when it agrees with the report of the reloaded text
+pub fn run_edit_case(text: &str, list: &str, ops: &[EditOp]) -> Result<(usize, bool), String> {
+    let mut f = match load(text, None, false) {
+        Loaded::Ok(f, _) => f,
+        _ => return Err("machinery: base module does not load".into()),
+    };
+    let before_rep = report_key(&guard(|| f.check()).map_err(|p| format!("panic: {p}"))?);
+    guard(std::panic::AssertUnwindSafe(|| edit_list(&mut f, list, ops))).map_err(|p| format!("machinery: edit panics (C13 matter): {p}"))?;
+    let dbg = format!("{f:?}");
+    let rep = guard(|| f.check()).map_err(|p| format!("panic: {p}"))?;
+    if format!("{f:?}") != dbg {
+        return Err("modified: check() changed the model".into());
+    }
+    let out = write(&f).map_err(|p| format!("machinery: write panics: {p}"))?;
+    let g2 = match load(&out, None, false) {
+        Loaded::Ok(g2, _) => g2,
+        _ => return Err("machinery: edited model does not reload".into()),
+    };
+    let rep2 = guard(|| g2.check()).map_err(|p| format!("panic on the reloaded model: {p}"))?;
+    let (a, b) = (report_key(&rep), report_key(&rep2));
+    if a != b {
+        let only_a: Vec<&String> = a.iter().filter(|x| !b.contains(x)).collect();
+        let only_b: Vec<&String> = b.iter().filter(|x| !a.contains(x)).collect();
+        return Err(format!("differs: report of the edited model and of the same model loaded from its text differ; only edited: {only_a:?}; only reloaded: {only_b:?}"));
+    }
+    Ok((a.len(), a != before_rep))
+}
+
+/// all operation sequences of length <= depth over the alphabet for a list of n elements
+fn edit_sequences(n: usize, depth: usize) -> Vec<Vec<EditOp>> {
+    let mut alpha = vec![EditOp::Pop, EditOp::Clear, EditOp::SortDesc, EditOp::PushBack];
+    for i in 0..=n {
+        alpha.push(EditOp::SwapRemove(i));
+        alpha.push(EditOp::SwapRemoveIdx(i));
+        alpha.push(EditOp::RetainNot(i));
+        alpha.push(EditOp::Truncate(i));
+        alpha.push(EditOp::Rename(i));
+    }
+    let mut out: Vec<Vec<EditOp>> = vec![];
+    let mut frontier: Vec<Vec<EditOp>> = vec![vec![]];
+    for _ in 0..depth {
+        let mut next = vec![];
+        for s in &frontier {
+            for a in &alpha {
+                if s.is_empty() && *a == EditOp::PushBack {
+                    continue;
+                }
+                let mut t = s.clone();
+                t.push(a.clone());
+                next.push(t);
+            }
+        }
+        out.extend(next.iter().cloned());
+        frontier = next;
+    }
+    out
+}
+
 pub fn run(tier: &str) -> Run {
     let mut run = Run::new("C11", tier);
     let thorough = tier == "thorough";
@@ -305,6 +539,57 @@ pub fn run(tier: &str) -> Run {
             }
         }
     }
+    // editing histories: all operation sequences up to the depth on every list check() indexes, on the base module and on
+    // the base module with one more element per list
+    {
+        let depth = if thorough { 3 } else { 2 };
+        let bases = [("base", base.clone()), ("base+extras", base_module_ex(&g, &|_, d| d.to_string(), true))];
+        let mut ecases: Vec<(usize, &str, Vec<EditOp>)> = Vec::new();
+        for (bi, (_, text)) in bases.iter().enumerate() {
+            let Loaded::Ok(f, _) = load(text, None, false) else {
+                run.machinery("editing histories: base does not load");
+                continue;
+            };
+            for list in EDIT_LISTS {
+                let n = list_len(&f, list);
+                for ops in edit_sequences(n, depth) {
+                    ecases.push((bi, list, ops));
+                }
+            }
+        }
+        let eres = par_map(ecases.len(), &|i| run_edit_case(&bases[ecases[i].0].1, ecases[i].1, &ecases[i].2), &|i| {
+            println!("MACHINERY-ERROR: C11 editing history hangs: {} {:?}", ecases[i].1, ecases[i].2);
+            std::process::exit(2);
+        });
+        for (i, r) in eres.into_iter().enumerate() {
+            let (bi, list, ops) = &ecases[i];
+            run.evaluations += 1;
+            run.transitions += 4 + ops.len() as u64;
+            let label = format!("{} {list}: {ops:?}", bases[*bi].0);
+            let h = fnv1a(label.as_bytes());
+            run.states.insert(h);
+            let rj = json!({"text": bases[*bi].1, "edit": {"list": list, "ops": ops.iter().map(|o| o.to_json()).collect::<Vec<_>>()}});
+            match r {
+                Ok((_, changed)) => {
+                    if changed {
+                        run.nontrivial.insert(h);
+                        run.outcome("editing history: report changed, equal to the report of the reloaded model");
+                    } else {
+                        run.outcome("editing history: report unchanged, equal to the report of the reloaded model");
+                    }
+                    if i % 9973 == 0 {
+                        run.sample(json!({"label": label}));
+                    }
+                }
+                Err(m) if m.starts_with("machinery") => run.outcome("editing history: skipped (edit or write panics: ItemList matter, C13)"),
+                Err(p) => {
+                    let kind = if p.starts_with("panic") { format!("panic {}", vcore::explore::panic_key(p.trim_start_matches("panic: ").trim_start_matches("panic on the reloaded model: "))) } else if p.starts_with("modified") { "model-modified".into() } else { "edited-vs-reloaded".into() };
+                    run.violation(format!("C11/{kind}/edit/{list}/{}", ops.iter().map(|o| format!("{o:?}").split('(').next().unwrap().to_string()).collect::<Vec<_>>().join("+")), format!("{label}: {p}"), rj);
+                }
+            }
+        }
+        run.require("editing history: report changed, equal to the report of the reloaded model", 1000);
+    }
     // totality on structurally odd files and on every corpus document
     let mut odd = odd_structures(&g);
     let mut docs = corpus::carriers(&g);
@@ -360,12 +645,17 @@ pub fn run(tier: &str) -> Run {
     run.require("resolving target: no report", 50);
     run.require("missing target: named", 50);
     run.require("totality: report returned", 500);
-    run.rule = "one fully consistent module with every position check() covers populated (its report must be empty) x for each of the 48 covered positions every alternative target of its namespace class (missing, another kind of the same namespace, the special constants, THIS.<component> valid / invalid, a name from another namespace); thorough: all pairs of corruptions. Oracle: the set of target names of CrossReferenceErrors equals the set of names made missing. Totality: 8 characteristic types x 0..7 AXIS_DESCR x 5 axis kinds x 3 record layouts for CHARACTERISTIC and TYPEDEF_CHARACTERISTIC, odd structures (duplicate names within every repeatable named kind of the module, cycles, empty lists, missing MOD_PAR), every corpus document and the C10 modules: check() returns and leaves the model untouched.".into();
+    run.rule = "one fully consistent module with every position check() covers populated (its report must be empty) x for each of the 48 covered positions every alternative target of its namespace class (missing, another kind of the same namespace, the special constants, THIS.<component> valid / invalid, a name from another namespace); thorough: all pairs of corruptions. Oracle: the set of target names of CrossReferenceErrors equals the set of names made missing. Editing histories: all sequences of <= 2 (thorough 3) ItemList operations (pop, swap_remove by name / index, retain, truncate, rename_item, clear, sort_by, push of the removed element) on each of the 18 lists check() indexes, on the base module and on the base module with one more element per list; oracle: check() does not panic, leaves the model untouched and returns the report of the same model loaded from its own text (modulo line numbers). Totality: 8 characteristic types x 0..7 AXIS_DESCR x 5 axis kinds x 3 record layouts for CHARACTERISTIC and TYPEDEF_CHARACTERISTIC, odd structures (duplicate names within every repeatable named kind of the module, cycles, empty lists, missing MOD_PAR), every corpus document and the C10 modules: check() returns and leaves the model untouched.".into();
     run
 }
 
 pub fn replay(v: &Value) -> Result<String, String> {
     let text = v["text"].as_str().ok_or("no text")?;
+    if let Some(ed) = v.get("edit") {
+        let list = ed["list"].as_str().ok_or("no list")?;
+        let ops: Vec<EditOp> = ed["ops"].as_array().ok_or("no ops")?.iter().filter_map(|o| o.as_str().and_then(EditOp::from_str)).collect();
+        return run_edit_case(text, list, &ops).map(|(n, _)| format!("{n} entries, equal to the reloaded model's"));
+    }
     if v["totality"].as_bool().unwrap_or(false) {
         return match load(text, None, false) {
             Loaded::Ok(f, _) => guard(|| f.check()).map(|r| format!("{} entries", r.len())),
